@@ -211,6 +211,23 @@ pub fn c10(rep: &mut Report) {
                         // comparison (same answer, same effect on the next connection)
                         let mut pre_a: Trace = vec![];
                         let mut pre_b: Trace = vec![];
+                        // between the connections no alias binding exists any more (v5.0)
+                        if ver == Ver::V5 {
+                            for (c, t) in [(&a, &mut pre_a), (&b, &mut pre_b)] {
+                                for al in [1u16, 2] {
+                                    let ap = AP::Publish { ver, dup: false, qos: 1, retain: false, topic: vec![], pid: Some(1), props: vec![crate::refcodec::Prop { id: 0x23, val: crate::refcodec::PVal::U16(al) }], payload: b"p".to_vec() };
+                                    let r = c.regulate_for_store(&ap);
+                                    t.push((format!("regulate_for_store(empty topic + alias {al})"), vec![if r.is_ok() { Ev::Released(0) } else { Ev::Close }]));
+                                }
+                            }
+                        }
+                        if w.cfg.offline && ver == Ver::V5 && w.m.ids.is_empty() {
+                            for (c, t) in [(&mut a, &mut pre_a), (&mut b, &mut pre_b)] {
+                                let id = c.acquire().unwrap_or(0);
+                                t.push((format!("acquire -> {id}"), vec![]));
+                                send(c, t, AP::Publish { ver, dup: false, qos: 1, retain: false, topic: vec![], pid: Some(id), props: vec![crate::refcodec::Prop { id: 0x23, val: crate::refcodec::PVal::U16(1) }], payload: b"p".to_vec() });
+                            }
+                        }
                         if w.cfg.offline && w.m.ids.is_empty() {
                             for (c, t) in [(&mut a, &mut pre_a), (&mut b, &mut pre_b)] {
                                 let id = c.acquire().unwrap_or(0);
